@@ -10,6 +10,8 @@ from .config_rules import check_constants
 from . import array_folds as af
 from .vector_rules import check_component_map, VECTOR
 
+from . import quantity_stack as qs
+
 EXPLANATION = '(R1) Array.to over unit relations x dtypes with unit ratios in an exact monomial algebra: identity for equal units, values scaled by old/new, labelled new, no cast back to the source dtype, incompatible dimensions raise, receiver untouched; (R3) Vector mapping methods (to, copy, reshape, indexing, neg, pow) on 1-3 components; (R4) configure_constants interpreted on a recording registry, definitions evaluated in the dimension domain against an independently sourced catalogue S3 (1e-3) and required aliases; (R5) one registry construction (cgs) in the package, Units folded on a recording registry: constants defined on THE registry, Quantity refused, Unit returned unchanged, strings parsed as written over a history of spellings (a cache may only be keyed on the exact string).'
 NOT_DECIDED = "pint's parsing of equivalent spellings and its numeric factors; floating-point round-trip error; a user configuration file that differs from config/defaults.py"
 TRUSTED = ('CPython ast', 'pint semantics of Quantity.to / magnitude / units', 'constants catalogue S3 (sa/specs/dims.py)', 'the interpreter sa/models.py (ModelEval) and its library models')
@@ -139,4 +141,10 @@ def r5_registry(run, tree):
         run.unresolved("units/units.py::Units", init.where(), "cannot fold: %s" % e)
 
 
-RULES = [r1_r2_array_to, r3_vector_to, r4_constants, r5_registry]
+def r6_end_to_end(run, tree):
+    run.rule("C08.R6", "end to end: x.to(u) denotes the same physical quantity and is labelled u, for Array and Vector, including the dimensionless family "
+             "(rad/deg/percent) and differently named units of equal size", "D7 fold of Array.to / Vector.to with pint units as symbolic-scale models", "", floor=13)
+    qs.check_to_stack(run, tree)
+
+
+RULES = [r1_r2_array_to, r3_vector_to, r4_constants, r5_registry, r6_end_to_end]
